@@ -1,5 +1,5 @@
 PROPERTY = {'id': 'C11',
- 'extra': ['bounded.run_corpus.run', 'bounded.c11_fresh.run'],
+ 'extra': ['bounded.run_corpus.run', 'bounded.c11_fresh.run', 'bounded.c11_isolation.run'],
  'contract_modules': ['directive', 'doctest_example', 'util_stream', 'checker', 'doctest_part', 'runner'],
  'functions': ['xdoctest.directive:RuntimeState.__init__#concrete', 'xdoctest.directive:RuntimeState.update#concrete', 'xdoctest.directive:RuntimeState.set_report_style#concrete', 'xdoctest.directive:Directive.effects', 'xdoctest.directive:_is_requires_satisfied', 'xdoctest.doctest_example:DocTest.run', 'xdoctest.utils.util_stream:CaptureStdout.__init__', 'xdoctest.utils.util_stream:CaptureStdout.start', 'xdoctest.utils.util_stream:CaptureStdout.stop', 'xdoctest.utils.util_stream:CaptureStdout.__enter__', 'xdoctest.utils.util_stream:CaptureStdout.__exit__', 'xdoctest.utils.util_stream:CaptureStdout.log_part', 'xdoctest.utils.util_stream:TeeStringIO.__init__',
                'xdoctest.doctest_example:DocTest._post_run',
@@ -28,7 +28,8 @@ PROPERTY = {'id': 'C11',
                   'only writes the two dicts of its own object (frame), so directive state cannot leak into the next run',
                   'a doctest that replaces sys.stdout cannot affect the next one: CaptureStdout.stop/__exit__ put back the stream that was current '
                   'when the capture object was built, unconditionally, and run ends with sys.stdout identical to its entry value'],
-             'B': ['the real parser and DocTest.run on every sequence of 1..2 (thorough 3) statement templates plus random longer ones, each run twice, against an oracle written from the property statements: executed statements and their order, verdict, recorded exception and failing part, logged output, renderable report, stdout restored, second run identical, module global untouched (bounded/run_corpus.py)',
+             'B': ['doctests of one scratch module that bind clashing names, read names others bind, rebind a module global, leave SKIP / an unmet REQUIRES on, replace sys.stdout, change the warning filters: every sequence (with repetition) of 2 (thorough 3) of 11, sharing one config dict with non-empty default options, on the real DocTest.run -- outcome and captured output of each equal its solo run; the same doctest object run three times in a row behaves the same (bounded/c11_isolation.py)',
+                   'the real parser and DocTest.run on every sequence of 1..2 (thorough 3) statement templates plus random longer ones, each run twice, against an oracle written from the property statements: executed statements and their order, verdict, recorded exception and failing part, logged output, renderable report, stdout restored, second run identical, module global untouched (bounded/run_corpus.py)',
                    'the real RuntimeState on a few default dicts x directive sequences: no aliasing of the module-level defaults or of the dict handed in, no write to either (guards the proof against rewrites of __init__ the engine cannot follow)'],
         'T': ['compile / exec / eval / asyncio.run as oracles (pyvc/models_run.py): return a value or raise any class, write to the current '
                    'sys.stdout, may rebind sys.stdout, bind names in the dict they are given',
